@@ -596,6 +596,7 @@ func (i *indexedTableRefIter) Next(rec record) (bool, error) {
 			// XXX test for this case
 			continue
 		}
+		ref.UpdateIndex += i.r.header.MinUpdateIndex
 
 		if bytes.Compare(ref.Value, i.oid) == 0 || bytes.Compare(ref.TargetValue, i.oid) == 0 {
 			return true, nil
